@@ -191,6 +191,15 @@ func (h *harness) builderCases(r *gen.Rand, n int) {
 				d.Symbols, d.Meta = nil, nil
 			}
 			// symbols only survive for accepted documents; keep them valid for the content
+			if r.Chance(1, 4) {
+				// a long document with few distinct trigrams: accepted however small TrigramMax is — also right after a
+				// document the same Builder rejected for too many trigrams (the Builder's DocChecker is reused)
+				d.Content = lowEntropy(r, o.TrigramMax%200+3)
+				d.Symbols, d.Meta = nil, nil
+				if len(d.Content) <= o.SizeMax {
+					h.w.Count("builder-long-low-entropy-docs", 1)
+				}
+			}
 			docs = append(docs, d)
 		}
 		h.builderCase(rp, docs, o, "builder")
